@@ -10,7 +10,7 @@ import numpy as np
 
 from vmon import refmodel as R
 from vmon.contracts import PostBroken
-from vmon.lib_c12 import tap_init_deep, redeclare, GM_JUP, R_JUP, G_SI, PRESS_UNITS, read_columns  # noqa: F401
+from vmon.lib_c12 import tap_init_deep, redeclare, GM_JUP, R_JUP, M_JUP, G_SI, PRESS_UNITS, read_columns  # noqa: F401
 
 EPS = float(np.finfo(float).eps)
 KB = R.KB
